@@ -20,7 +20,7 @@ from . import common as c
 
 # ---- pi_P: which observation fields a property's statement talks about
 PI = {
-    "C01": {"res.ok", "mode", "panic", "protocol"},
+    "C01": {"res.ok", "mode", "panic", "protocol", "caret"},
     "C03": {"out.text", "out.count", "out.kind", "res.ok", "res.kind", "res.loc", "panic"},
     "C04": {"keys", "prog", "out.text", "out.count", "panic"},
     "C07": {"out.text", "out.count", "out.kind", "res.ok", "res.kind", "mode", "bp", "stack", "loops", "data", "vars", "arrays", "loc", "panic"},
